@@ -529,6 +529,18 @@ theorem waitProcess_refine (req : List Tid) (c : Choice) (s : IS) (hrun : s.rs.s
     · exact hsub j (mem_finOf c _ j hj)
 
 /-! ## the serial runner's wait -/
+/-- `save` begun and completed = the coarse model's save -/
+theorem saveIfRan_begin (st : Store) (j : Job) (o : Outcome) :
+    saveIfRan p (saveBegin p st j o) j o = saveIfRan p st j o := by
+  cases o with
+  | ok v =>
+    simp only [saveIfRan, saveBegin]
+    split
+    · simp [List.filter_filter]
+    · rfl
+  | exc => rfl
+  | died => rfl
+
 theorem waitSerial_refine (req : List Tid) (c : Choice) (s : IS) (hrun : s.rs.status = .running)
     (hb : cfg.backend = .serial) (hmem : ∀ j ∈ s.rs.queued.head?, j.tid ∈ s.rs.futs)
     (hnk : (waitSerial cfg p req s.rs).status ≠ .raised .keyError) :
@@ -543,7 +555,7 @@ theorem waitSerial_refine (req : List Tid) (c : Choice) (s : IS) (hrun : s.rs.st
   | cons j rest =>
     have htf : j.tid ∈ s.rs.futs := hmem j (by simp [hq])
     simp only [waitPrims, hb, if_true, hq, runPrims_append, runPrims_cons, runPrims_nil]
-    simp only [applyPrim_running, hrun, stepPrim, hq]
+    simp only [applyPrim_running, hrun, stepPrim, hq, saveIfRan_begin]
     simp only [waitSerial, hq] at hnk
     have hc : completeTask s.rs.ts j.tid ≠ none := by
       intro hcn
